@@ -30,14 +30,16 @@ RULE_OF = {"packages": "Package", "classes": "Class", "groups": "Group", "refs":
 _MM = {}
 
 
-def grammar_of(variant):
+def grammar_of(variant, gopt=False):
+    """gopt: groups have an optional name (`group named g { … }`); an unnamed group then has the name value ''
+    (textX initialises an unmatched optional `name=ID` with ''), so the empty parts of `a..b` / `.a` match it"""
     order = ORDERS[variant]
     body = " | ".join(f"{a}+={RULE_OF[a]}" for a in order)
     gbody = " | ".join(f"{a}+={RULE_OF[a]}" for a in order if a != "groups")
     return f"""
 Model: ({body})*;
 Package: 'package' name=ID '{{' ({body})* '}}';
-Group: 'group' '{{' ({gbody})* '}}';
+Group: 'group' {"('named' name=ID)? " if gopt else ""}'{{' ({gbody})* '}}';
 Class: 'class' name=ID ('friend' friend=[Class:FQN])? ('likes' likes+=[Target:FQN][','])?
        ('{{' ('main' main=Member)? members*=Member refs*=Ref '}}')?;
 Member: 'member' name=ID;
@@ -66,8 +68,13 @@ def build(case):
             objs[parent]["kids"].append(o["id"])
         return o
 
+    gopt = bool(case.get("gopt"))
+
     def container(node, k, parent):
-        o = add(k, node.get("name"), parent, node)
+        nm = node.get("name")
+        if k == "group" and gopt and nm is None:
+            nm = ""  # the value of the unmatched optional name attribute
+        o = add(k, nm, parent, node)
         for a in order:
             if k == "group" and a == "groups":
                 continue
@@ -140,6 +147,9 @@ def render(case):
             nl()
         elif k == "group":
             emit("group")
+            if node.get("name") is not None:
+                emit("named")
+                emit(node["name"])
             emit("{")
             body(node, k)
             emit("}")
@@ -179,15 +189,22 @@ def render(case):
 
 
 def lean_obj(case):
-    objs, _ = build(case)
+    objs, refs = build(case)
     order = ORDERS[case["variant"]]
+    # the reference attributes hold the identities of their targets (the state after loading, as far as the
+    # statement determines it): the model must not follow them (C10_no_ref / C10_heap_frame)
+    held = {}
+    for r in refs:
+        tgt = spec_fqn(objs, r["owner"], r["name"], r["t"])
+        if tgt is not None:
+            held.setdefault((r["owner"], r["attr"]), []).append(tgt)
 
     def go(i):
         o = objs[i]
         k = o["k"]
         kids = [objs[j] for j in o["kids"]]
         if k in ("model", "package", "group"):
-            attrs = [] if k != "package" else [{"p": 0}]
+            attrs = [{"p": 0}] if k == "package" or (k == "group" and case.get("gopt")) else []
             for a in order:
                 if k == "group" and a == "groups":
                     continue
@@ -197,14 +214,14 @@ def lean_obj(case):
             node = o["node"]
             mem = [x for x in kids if x["k"] == "member"]
             nmain = 1 if node.get("main") is not None else 0
-            attrs = [{"p": 0}, {"r": []}, {"r": []},
+            attrs = [{"p": 0}, {"r": held.get((i, "friend"), [])}, {"r": held.get((i, "likes"), [])},
                      {"c": [go(x["id"]) for x in mem[:nmain]]},
                      {"c": [go(x["id"]) for x in mem[nmain:]]},
                      {"c": [go(x["id"]) for x in kids if x["k"] == "ref"]}]
         elif k == "member":
             attrs = [{"p": 0}]
         else:
-            attrs = [{"r": []}]
+            attrs = [{"r": held.get((i, "target"), [])}]
         return {"id": i, "cls": KNUM[k], "name": o["name"], "attrs": attrs}
 
     return go(0)
@@ -233,9 +250,7 @@ def chain_end(objs, p, parts):
 
 
 def spec_fqn(objs, cur, dotted, t):
-    parts = dotted.split(".")
-    if any(x == "" for x in parts):
-        return None  # no object is named ''
+    parts = dotted.split(".")  # an empty part matches an object whose name value is '' (unnamed group, gopt) only
     p = cur
     while p is not None:
         e = chain_end(objs, p, parts)
@@ -256,6 +271,17 @@ class Prop(Check):
         "Link.C10_no_parent",
         "Link.C10_no_ref",
         "Link.C10_pinned_false",
+        "Link.C10_path_complete",
+        "Link.C10_path_defined_iff",
+        "Link.C10_iff'",
+        "Link.C10_iff_desc",
+        "Link.C10_unknown_iff'",
+        "Link.C10_no_ref'",
+        "Link.C10_split_spec",
+        "Link.C10_split_unique",
+        "Link.C10_text_iff",
+        "Link.C10_empty_part",
+        "Link.C10_heap_frame",
     ]
     DRIVER = "Drivers/Link.lean"
     QUICK_CASES = 450
@@ -265,12 +291,14 @@ class Prop(Check):
             "only) with friend / likes / ref references between them x in-text dotted names (valid, spurious through "
             "parent or reference edges, unknown) x ~30 direct provider calls per loaded model (walks of <=4 steps over "
             "containment / parent / reference edges from the referencing object's ancestors, random and malformed "
-            "names, all target classes); non-trivial = the case has a spurious candidate: a dotted name that would "
+            "names, all target classes); 35% of the cases give groups an optional name, an unnamed group then has "
+            "the name value '' and names with empty parts (a..b, .a) walk through it; non-trivial = the case has a spurious candidate: a dotted name that would "
             "resolve if `parent` or reference attributes were followed but that matches no containment chain of the "
             "target type (cases needing the outward search with shadowing / multi-part chains are counted separately)")
     MODELLED = ("hand-modelled: scoping/providers.py FQN.__call__ (_find_referenced_obj, _find_obj_fqn, find_obj after "
                 "the repair: containment attributes only) as Link.fqn/findReferenced/findObjFqn/walk/findObj, parent "
-                "links as Link.pathTo; tie X: target identity per reference / Unknown object + offending reference, "
+                "links as Link.pathTo, fqn_name.split('.') as Link.splitDots; the model tree carries the identities held by "
+                "the reference attributes; tie X: target identity per reference / Unknown object + offending reference, "
                 "direct provider calls; not exhibited: scope_redirection_logic, Postponed results, multi-model "
                 "variants (FQNImportURI), user classes overriding __bool__/__eq__")
     ASSUMPTIONS = [
@@ -282,6 +310,7 @@ class Prop(Check):
     def gen_case(self, rng):
         pool = POOL[: rng.randint(3, 5)]
         dup_ok = rng.chance(0.12)
+        gopt = rng.chance(0.35)  # groups with an optional name: unnamed ones carry the name value ''
         budget = [rng.randint(3, 14)]
 
         def fresh(used):
@@ -330,14 +359,24 @@ class Prop(Check):
                     if c:
                         node["packages"].append(c)
                 else:
-                    node["groups"].append(mk_container("group", depth + 1, set()))
+                    g = mk_container("group", depth + 1, set())
+                    if gopt and rng.chance(0.4):
+                        nm = fresh(used)
+                        if nm is not None:
+                            used.add(nm)
+                            g["name"] = nm
+                    elif gopt and not dup_ok and "" in used:
+                        continue  # a second unnamed group here would break sibling-name uniqueness ('' twice)
+                    elif gopt:
+                        used.add("")
+                    node["groups"].append(g)
             return node
 
         tree = mk_container("model", 0, set())
         if not (tree["packages"] or tree["classes"]):
             tree["packages"].append({"k": "package", "name": rng.choice(pool), "packages": [], "groups": [], "refs": [],
                                      "classes": [{"k": "class", "name": rng.choice(pool), "members": [], "refs": []}]})
-        case = {"variant": rng.below(2), "user": rng.chance(0.2), "tree": tree, "probes": []}
+        case = {"variant": rng.below(2), "user": rng.chance(0.2), "tree": tree, "probes": [], "gopt": gopt}
         objs, _ = build(case)
         named = [o for o in objs if o["name"] is not None]
         fail_case = rng.chance(0.35)
@@ -349,8 +388,9 @@ class Prop(Check):
                 i = objs[i]["parent"]
             return out
 
-        def valid_name(cur, want_kinds):
-            """a dotted name that designates some object of a wanted kind, seen from cur"""
+        def valid_name(cur, want_kinds, in_text=True):
+            """a dotted name that designates some object of a wanted kind, seen from cur (in the model text a name
+            must match `FQN: ID('.'ID)*`: no empty parts there)"""
             cands = []
             for a in ancestors(cur):
                 stack = [(j, [objs[j]["name"]]) for j in objs[a]["kids"] if objs[j]["name"] is not None]
@@ -361,11 +401,13 @@ class Prop(Check):
                     for c in objs[j]["kids"]:
                         if objs[c]["name"] is not None:
                             stack.append((c, path + [objs[c]["name"]]))
+            if in_text:
+                cands = [c for c in cands if "" not in c.split(".")]
             return rng.choice(sorted(set(cands))) if cands else None
 
         friend_of = {}
 
-        def edge_walk(cur, steps):
+        def edge_walk(cur, steps, in_text=True):
             """dotted name by a walk over child / parent / reference edges (spurious unless all steps are child steps)"""
             x = rng.choice(ancestors(cur))
             names = []
@@ -375,6 +417,8 @@ class Prop(Check):
                 if par is not None and objs[par]["name"] is not None:
                     opts += [("parent", par)] * 2
                 opts += [("ref", j) for j in friend_of.get(x, [])] * 2
+                if in_text:
+                    opts = [o for o in opts if objs[o[1]]["name"] != ""]
                 if not opts:
                     break
                 _, y = rng.choice(opts)
@@ -437,9 +481,9 @@ class Prop(Check):
             cur = rng.below(len(objs))
             style = rng.weighted([("walk", 6), ("valid", 2), ("random", 2), ("malformed", 1)])
             if style == "walk":
-                nm = edge_walk(cur, rng.randint(1, 4))
+                nm = edge_walk(cur, rng.randint(1, 4), in_text=False)
             elif style == "valid":
-                nm = valid_name(cur, CONF["Target"]) or rng.choice(pool)
+                nm = valid_name(cur, CONF["Target"], in_text=False) or rng.choice(pool)
             elif style == "random":
                 nm = ".".join(rng.choice(pool) for _ in range(rng.randint(1, 3)))
             else:
@@ -470,15 +514,17 @@ class Prop(Check):
                             setattr(self, k, v)
                     return type(nm, (object,), {"__init__": __init__})
 
-                mm = metamodel_from_str(grammar_of(case["variant"]), classes=[mkcls("Package"), mkcls("Class")])
+                mm = metamodel_from_str(grammar_of(case["variant"], case.get("gopt", False)),
+                                        classes=[mkcls("Package"), mkcls("Class")])
                 mm.register_scope_providers({"*.*": FQN()})
             else:
                 # generated classes only: the metamodel is reused by the cases of one worker process
-                mm = _MM.get(case["variant"])
+                key = (case["variant"], bool(case.get("gopt")))
+                mm = _MM.get(key)
                 if mm is None:
-                    mm = metamodel_from_str(grammar_of(case["variant"]))
+                    mm = metamodel_from_str(grammar_of(*key))
                     mm.register_scope_providers({"*.*": FQN()})
-                    _MM[case["variant"]] = mm
+                    _MM[key] = mm
         except Exception as e:
             return {"outcome": "grammar-error", "type": type(e).__name__, "msg": str(e)[:300]}
         try:
@@ -706,7 +752,8 @@ class Prop(Check):
                     yield c
 
     def sample_view(self, case, obs):
-        return {"variant": case["variant"], "text": render(case)[0], "probes": case["probes"][:8],
+        return {"variant": case["variant"], "optional_group_names": bool(case.get("gopt")),
+                "text": render(case)[0], "probes": case["probes"][:8],
                 "user_classes": case.get("user", False), "impl": obs}
 
     def extra_search(self, rng, tier, broken):
